@@ -441,5 +441,5 @@ def run(ctx):
             "restricted JSON-Schema semantics `satisfies` (minLength/maxLength in Unicode scalar values, pattern = unanchored search, numeric bounds exact) is the specification side, written in Lean (no jsonschema implementation is available offline)",
             "literal text (digit grouping, suffixes) is compared with the emitted text on every case but only its structured form (Lit) is reasoned about",
             "syn-based extraction of #[validate(..)] attributes, regex statics and the client method's first statement (harness/src/k_valid.rs)"],
-        rule="K: bounded-exhaustive constraint combinations (every subset of min/max/exclusive bounds x 8 integer + 3 float formats x nullable, strings: format x minLength x maxLength x pattern x required x param position, arrays: minItems x maxItems x item schemas) through the real extract_all_validation; E: random specs of the fragment (1-4 object schemas with scalar/array/ref/array-of-ref members incl. recursive ones, parameters in path/query/header, body as struct or array alias, response-only and bidirectional types) through the whole generator in-process; every leaf is judged on its boundary values (min-1, min, max, max+1, exclusive bounds, type MIN/MAX, multi-byte strings at the length limits, pattern (non)matches, lists at minItems/maxItems); non-trivial = at least one attribute predicted; distinct by input hash",
+        rule="K: bounded-exhaustive constraint combinations (every subset of min/max/exclusive bounds x 8 integer + 3 float formats x nullable, strings: format x minLength x maxLength x pattern x required x param position, arrays: minItems x maxItems x item schemas) through the real extract_all_validation; E: random specs of the fragment (1-4 object schemas with scalar/array/ref/array-of-ref members incl. recursive ones, parameters in path/query/header, body as struct or array alias, response-only and bidirectional types) through the whole generator in-process; E on sites (valid.sites): documents with 2-3 same-shaped inline objects (sibling properties, different holders, array items, request vs response holders) that differ in one of the nine validation keywords (each keyword, and every pair), only in an annotation, or not at all; the validators of the struct each site resolves to are judged against THAT site's own constraints on the boundary values of all variants; every leaf is judged on its boundary values (min-1, min, max, max+1, exclusive bounds, type MIN/MAX, multi-byte strings at the length limits, pattern (non)matches, lists at minItems/maxItems); non-trivial = at least one attribute predicted; distinct by input hash",
         assumptions=["schemas and members are given in BTreeMap order; names are ASCII identifiers that need no sanitising", "decimal bounds have at most 15 significant digits (f64 shortest representation = the decimal itself)"])
